@@ -882,6 +882,12 @@ func (in *interp) eval(e ast.Expr, s *State) Val {
 			return Opq{"parser." + x.Sel.Name}
 		}
 		base := in.eval(x.X, s)
+		if _, isNilBase := base.(Nil); isNilBase {
+			if _, isPtr := info.Types[x.X].Type.Underlying().(*types.Pointer); isPtr {
+				// a field of a pointer that is nil on this path: the action panics here
+				s.Events = append(s.Events, Event{Kind: "nilderef", Args: []Val{Opq{types.ExprString(x)}}, At: x.Pos()})
+			}
+		}
 		if _, isObj := base.(*Obj); !isObj {
 			tn := typeName(info.Types[x.X].Type)
 			if v, ok := s.overlay(base, tn, x.Sel.Name); ok {
